@@ -1041,6 +1041,8 @@ fn scan_trivia(source: &str) -> Vec<Scanned> {
     let mut out = Vec::new();
     let mut chars = source.char_indices().peekable();
     let mut in_string = false;
+    // Inside a `"""` literal: only an (unescaped) `"""` ends it, a lone `"` is content.
+    let mut in_multiline = false;
     let mut escaped = false;
     let mut line_start = 0usize;
     let mut line_blank = true;
@@ -1052,7 +1054,13 @@ fn scan_trivia(source: &str) -> Vec<Scanned> {
             match c {
                 _ if escaped => escaped = false,
                 '\\' => escaped = true,
-                '"' => in_string = false,
+                '"' if !in_multiline => in_string = false,
+                '"' if source[index..].starts_with("\"\"\"") => {
+                    chars.next();
+                    chars.next();
+                    in_string = false;
+                    in_multiline = false;
+                }
                 _ => {}
             }
             if c == '\n' {
@@ -1090,6 +1098,11 @@ fn scan_trivia(source: &str) -> Vec<Scanned> {
             }
             '"' => {
                 in_string = true;
+                if source[index..].starts_with("\"\"\"") {
+                    chars.next();
+                    chars.next();
+                    in_multiline = true;
+                }
                 line_blank = false;
             }
             c if !c.is_whitespace() => line_blank = false,
